@@ -183,7 +183,7 @@ DEFAULT_KNOBS = dict(
     daemon_latency=(0.0005, 0.05), net_latency=(0.001, 0.05), fault_rate=0.0,
     orphans_return=True, txindex=True, urls=1, resegment=True, max_hist_row=None,
     services='tcp://:50001,rpc://:8000', peer_discovery='off', tor_proxy_port=None, session_timeout=10_000_000,
-    request_timeout=30, cost_limits=(0, 0), extra_env=None,
+    request_timeout=30, cost_limits=(0, 0), extra_env=None, stall_boost=None,
 )
 
 
@@ -195,6 +195,8 @@ class World:
         self.k = k
         self.sim = Sim(chooser, preempt=k['preempt'], stall_p=k['stall_p'], line_p=k['line_p'],
                        loop_seam_p=k['loop_seam_p'], trace=trace)
+        if k.get('stall_boost'):
+            self.sim.stall_boost = tuple(k['stall_boost'])
         self.fs = seams.SimFS()
         self.fs.sim = self.sim
         self.store = seams.SimDBStore()
